@@ -13,11 +13,19 @@ COMMON_NOTE = ("Trusted: Coq 8.16.1 kernel (coqc, coqchk in thorough; vm_compute
 
 T = {
  "C01": ("proof", "DESIGN.md §5 C01", "hier",
-         "Coq theorems over a grammar of hierarchies (Wishbone decoder over SRAMs and bridges over CSR decoder trees over multiplexers): "
-         "an access at the root reaches a leaf iff the root memory-map model decodes the address to it, at the reported offset; unassigned "
-         "addresses are inert. Tied by running every root address of generated real hierarchies against the model and against the real "
-         "root.memory_map.decode_address().",
-         "Partial: arbitrary user glue between components is outside the grammar; the acknowledge clause is read as in DESIGN §5 C01.",
+         "Coq theorems over a grammar of hierarchies whose memory maps are built by the same MemoryMap calls as the real constructors. "
+         "CSR trees (csr.Decoder over decoders over multiplexers, any depth), all addresses: the routing read off the hardware selects "
+         "chunk `off` of register `id` iff the root map decodes the address to `id` and reports it `off` above the register's start "
+         "(all_resources / find_resource); unassigned addresses (and idle cycles) raise no r_stb, no w_stb in the next cycle and read zero, "
+         "from any state, on the cycle-exact machine; every multiplexer configuration meets C04/C05's premise. Wishbone layer (decoder over "
+         "SRAMs and bridges): trace theorem on the cycle-exact machine - while the root decoder selects nobody, nothing is ever acknowledged, "
+         "no SRAM sees cyc or changes, no register is read-strobed. Tied by running every root address (read and write) of generated real "
+         "hierarchies against the model, and by an oracle against the real root.memory_map.decode_address()/all_resources()/find_resource().",
+         "Partial: for a Wishbone root the agreement of routing with the root map (reach_iff_decode through the Wishbone decoder, a bridge's "
+         "Cat(cycle, adr), SRAM row/lane) and the step from `outside every window of the map` to `no Case matches` are NOT proved (full "
+         "statements are in Properties/C01.v as comments); they are checked per address by the correspondence (model `reach` vs the real "
+         "map) and by the oracle (real hardware vs the real map). Arbitrary user glue between components is outside the grammar; the "
+         "acknowledge clause is read as in DESIGN §5 C01.",
          "machine-checked proof in Coq (composition of the component theorems by induction over the hierarchy) + correspondence on real hierarchies"),
  "C02": ("proof", "DESIGN.md §5 C02", "memmap",
          "Coq theorems over a structure-mirroring model of memory.py for every reachable world (any finite history of add_resource/"
